@@ -3,7 +3,7 @@
    driver side: Model/Response.v (decode_message, to_exception), tied to cassandra/protocol.py by correspondence
                 (checks/C04.py: every generated case is decoded by the real _ProtocolHandler.decode_message and by this model). *)
 From Coq Require Import ZArith List Bool String Ascii.
-From Verif Require Import Response ResponseSpec C04_proofs C04_frame_proofs C04_gap_proofs.
+From Verif Require Import Response ResponseSpec C04_proofs C04_frame_proofs C04_gap_proofs C04_cache_proofs.
 Import ListNotations.
 Local Open Scope Z_scope.
 
@@ -92,6 +92,39 @@ Proof.
   unfold exact. cbn [m_body]. rewrite B in *. eapply exceptions_table; eassumption.
 Qed.
 Print Assumptions C04_exceptions.
+
+(* ---- state that outlives a frame: the process-global UDT class cache (UserType._cache) behind read_type.
+   decode_message_st is one decode_message call in a process whose cache is c; decode_history a sequence of them. *)
+
+(* whatever earlier frames left in the cache, a well-formed frame decodes to exactly its own contents *)
+Theorem C04_cache_independent : forall c pv rm stream r,
+  wf_response pv rm r = true ->
+  fst (decode_message_st true c pv rm stream (spec_flags r) (spec_opcode r) (spec_body pv r)) = Some (exact pv rm stream r).
+Proof. exact decode_st_exact. Qed.
+Print Assumptions C04_cache_independent.
+
+(* every history (any length, any initial cache) of well-formed frames: each one decodes to exactly what it carries *)
+Theorem C04_history : forall (h : list (Z * option (list colspec) * Z * response)) c,
+  Forall (fun x => let '(pv, rm, stream, r) := x in wf_response pv rm r = true) h ->
+  decode_history true c (map (fun x => let '(pv, rm, stream, r) := x in frame_of pv rm stream r) h)
+  = map (fun x => let '(pv, rm, stream, r) := x in Some (exact pv rm stream r)) h.
+Proof. exact history_exact. Qed.
+Print Assumptions C04_history.
+
+(* the `instance.subtypes != field_types` test of make_udt_class is necessary: without it (check_subtypes = false) a
+   type re-created with the same field names and other field types is decoded with the stale class *)
+Definition udt_rows (ft : Z) : response :=
+  mkresp None None None
+    (RResult (ResRows (mkrmeta None None (McSome (ColsGlobal (zs "ks") (zs "t") [(zs "c", TUdt (zs "ks") (zs "u") [(zs "f", TPrim ft)])])))
+                      [[Some [0;0;0;4;0;0;0;1]]])).
+Theorem C04_stale_udt_class_refuted :
+  wf_response 4 None (udt_rows 9) = true /\ wf_response 4 None (udt_rows 13) = true /\
+  nth_error (decode_history false [] [frame_of 4 None 0 (udt_rows 9); frame_of 4 None 1 (udt_rows 13)]) 1%nat
+  <> Some (Some (exact 4 None 1 (udt_rows 13))) /\
+  nth_error (decode_history true [] [frame_of 4 None 0 (udt_rows 9); frame_of 4 None 1 (udt_rows 13)]) 1%nat
+  = Some (Some (exact 4 None 1 (udt_rows 13))).
+Proof. split; [vm_compute; reflexivity|]. split; [vm_compute; reflexivity|]. split; [vm_compute; discriminate|vm_compute; reflexivity]. Qed.
+Print Assumptions C04_stale_udt_class_refuted.
 
 (* a non-trivial response satisfies the hypotheses: traced, with a warning and a payload (one null value), paged rows
    under a global table spec with nested map / tuple / UDT / list column types, a null cell and an empty cell *)
